@@ -195,3 +195,79 @@ pub fn thread_cpu_ns() -> u64 {
         ts.tv_sec as u64 * 1_000_000_000 + ts.tv_nsec as u64
     }
 }
+
+// ---------------------------------------------------------------------------------------
+// bounded-termination watchdog (C01 "never hangs", restated as a CPU-time bound per call)
+//
+// A monitor-owned thread samples a call counter every 50 ms. While the counter does not move
+// (the same call is still in flight) it accumulates the *process CPU time* consumed; when that
+// exceeds the budget the in-flight (rule, data) is written to `<out>.hang` (or, in libcall mode,
+// answered with `@@RET {"hang": true}`) and the process exits with status 3. CPU time, not wall
+// clock, so a loaded machine cannot turn the watchdog into a verdict.
+
+use std::sync::atomic::{AtomicPtr, AtomicU64};
+
+static WD_CALLS: AtomicU64 = AtomicU64::new(0);
+static WD_ARMED: AtomicBool = AtomicBool::new(false);
+static WD_RULE: AtomicPtr<Value> = AtomicPtr::new(std::ptr::null_mut());
+static WD_DATA: AtomicPtr<Value> = AtomicPtr::new(std::ptr::null_mut());
+
+fn process_cpu_ns() -> u64 {
+    unsafe {
+        let mut ts: libc::timespec = std::mem::zeroed();
+        libc::clock_gettime(libc::CLOCK_PROCESS_CPUTIME_ID, &mut ts);
+        ts.tv_sec as u64 * 1_000_000_000 + ts.tv_nsec as u64
+    }
+}
+
+/// Arm the watchdog for one single-threaded call. The pointers stay valid for the whole call
+/// (the caller holds the references) and the values are not mutated while it runs.
+pub fn wd_arm(rule: &Value, data: &Value) {
+    WD_RULE.store(rule as *const Value as *mut Value, Ordering::SeqCst);
+    WD_DATA.store(data as *const Value as *mut Value, Ordering::SeqCst);
+    WD_CALLS.fetch_add(1, Ordering::SeqCst);
+    WD_ARMED.store(true, Ordering::SeqCst);
+}
+pub fn wd_disarm() {
+    WD_ARMED.store(false, Ordering::SeqCst);
+    WD_CALLS.fetch_add(1, Ordering::SeqCst);
+}
+
+/// `report`: Some(path) writes the hang record there; None = libcall mode (answer on fd `answer_fd`).
+pub fn wd_start(report: Option<String>, budget_ns: u64) {
+    if cfg!(miri) {
+        return;
+    }
+    std::thread::spawn(move || {
+        let mut last_calls = u64::MAX;
+        let mut cpu_at_change = process_cpu_ns();
+        loop {
+            std::thread::sleep(std::time::Duration::from_millis(50));
+            let calls = WD_CALLS.load(Ordering::SeqCst);
+            let now = process_cpu_ns();
+            if calls != last_calls || !WD_ARMED.load(Ordering::SeqCst) {
+                last_calls = calls;
+                cpu_at_change = now;
+                continue;
+            }
+            if now.saturating_sub(cpu_at_change) > budget_ns {
+                let (r, d) = (WD_RULE.load(Ordering::SeqCst), WD_DATA.load(Ordering::SeqCst));
+                let (rt, dt) = unsafe { ((*r).clone(), (*d).clone()) };
+                let rec = serde_json::json!({"hang": true, "rule": rt, "data": dt, "cpu_ns_in_call": now - cpu_at_change, "budget_ns": budget_ns});
+                match &report {
+                    Some(p) => {
+                        let _ = std::fs::write(p, rec.to_string());
+                    }
+                    None => {
+                        // libcall mode: fd 1 is the answer channel
+                        let line = format!("@@RET {}\n", serde_json::json!({"hang": true, "cpu_ns_in_call": now - cpu_at_change}));
+                        unsafe {
+                            libc::write(1, line.as_ptr() as *const libc::c_void, line.len());
+                        }
+                    }
+                }
+                unsafe { libc::_exit(3) };
+            }
+        }
+    });
+}
